@@ -283,7 +283,11 @@ class History:
         if not (-2 ** 31 <= eid < 2 ** 31):
             return False
         pos, yaw, pitch, roll = vec3(self.rng), gt.gen_f32(self.rng), gt.gen_f32(self.rng), gt.gen_f32(self.rng)
-        payload = struct.pack('<ii', eid, 0) + pack_bits(pos) + pack_bits(vec3(self.rng)) + pack_bits([yaw, pitch, roll]) + b'\x00'
+        # the second field names a vehicle the entity rides on; it does not change whose pose the packet sets
+        r = self.rng.random()
+        others = [x for x in self.world if -2 ** 31 <= x < 2 ** 31]
+        vehicle = 0 if r < 0.5 or not others else (eid if r < 0.6 else self.rng.choice(others) if r < 0.9 else 3999999)
+        payload = struct.pack('<ii', eid, vehicle) + pack_bits(pos) + pack_bits(vec3(self.rng)) + pack_bits([yaw, pitch, roll]) + b'\x00'
         if eid in self.world:
             self.world[eid]['pose'].update({'position': {'vec': pos}, 'yaw': {'f32': yaw}, 'pitch': {'f32': pitch}, 'roll': {'f32': roll}})
         self.emit('position', payload, id=eid)
